@@ -527,3 +527,38 @@ def run(ck, prog, ctx):
     ck.rule("WRAPPER", "len / is_empty / contains / get / iter / push ... of a wrapper type delegate to the same-named method of ONE inner collection, un-negated (DESIGN 3.9)")
     from engines import check_wrappers
     check_wrappers(ck, "WRAPPER", prog, r"^src/term/group\.rs$", floor=5)
+    # ------------------------------------------------------------------ the owned-operand operator variants
+    ck.rule("DELEGATE", "the operator impls that take their operands by value answer through the by-reference implementation of the same operator")
+    OWNED = [("std::ops::BitAnd", "&"), ("std::ops::BitOr", "|"), ("std::ops::Add", "+")]
+    n_own = 0
+    for ob_ in sorted(prog.production(), key=lambda b_: b_.id):
+        if ob_.kind != "AssocFn" or ob_.impl_trait not in [o[0] for o in OWNED] or not ob_.impl_self or ob_.impl_self.get("adt") != G or (ob_.impl_self.get("s") or "").startswith("&"):
+            continue
+        sym = dict(OWNED)[ob_.impl_trait]
+        refs = [(bi, t) for bi, t in ob_.calls() if t.callee.trait == ob_.impl_trait and (t.callee.res or "").startswith("<&" + G)]
+        n_own += 1
+        if refs:
+            ck.ob("DELEGATE", "owned/%s" % ob_.short, True, "%s answers with the by-reference `%s`" % (ob_.short, sym), where=ob_.where(refs[0][1].line))
+        elif any(True for fb in prog.family(ob_) for _, t in fb.calls() if t.callee.res in prog.bodies and prog.bodies[t.callee.res].file == ob_.file):
+            ck.undecided("DELEGATE", "owned/%s" % ob_.short, "%s does not call the by-reference `%s`; it uses other functions of the module" % (ob_.short, sym), where=ob_.where())
+        else:
+            ck.undecided("DELEGATE", "owned/%s" % ob_.short, "%s implements `%s` on its own: not compared with the by-reference implementation" % (ob_.short, sym), where=ob_.where())
+    ck.floor("DELEGATE", "owned-operand operator impls", n_own, 3, soft=True)
+
+    # a shared iterator advanced inside a per-element predicate loses its look-ahead: `find` / `position` / `skip_while` consume the element
+    # they stop at, so the next probe starts BEHIND it - a sorted intersection written that way drops common ids
+    ck.rule("LOOKAHEAD", "no consuming search (find / position / skip_while / take_while / nth) on a captured iterator inside a closure that runs once per element")
+    n_la = 0
+    for cb_ in sorted(prog.production(), key=lambda b_: b_.id):
+        if cb_.kind != "Closure" or cb_.file != "src/term/group.rs":
+            continue
+        for bi, t in cb_.calls():
+            if t.callee.trait == "std::iter::Iterator" and t.callee.method in ("find", "position", "skip_while", "take_while", "nth", "find_map", "rposition") and t.args:
+                at = pvn.of_operand(cb_, t.args[0])
+                captured = any(a[0] == "upvar" for a in at) or any(a[0] == "param" and a[1] != cb_.id for a in at) or any(a[0] == "call" and a[1].endswith("::by_ref") for a in at)
+                local_src = any(a[0] == "call" and a[3] == cb_.id and a[1].rsplit("::", 1)[-1] in ("iter", "into_iter") for a in at)
+                if captured and not local_src:
+                    n_la += 1
+                    ck.ob("LOOKAHEAD", "%s/%s" % (cb_.short, t.callee.method), False, "%s advances an iterator it captured with `%s` once per element: the element the search stops at is consumed, so ids that are present can be missed" % (cb_.short, t.callee.method), where=cb_.where(t.line))
+    if not n_la:
+        ck.ob("LOOKAHEAD", "none", True, "no consuming search on a captured iterator inside the per-element closures of src/term/group.rs")
